@@ -19,6 +19,7 @@ from .. import client as C
 from .. import linproof as LP
 from ..cfg import cfg_of
 from .exprs import show
+from ..absint import owning_functions
 
 IT = "stun_rs::raw::RawAttributesIter"
 NEXT = "<stun_rs::raw::RawAttributesIter<'a> as fallible_iterator::FallibleIterator>::next"
@@ -213,11 +214,11 @@ def r3_5_iterator(ctx, prog, rule="R3.5"):
                     builders.add(b.path)
                 for pe in st["place"]["p"]:
                     if pe["k"] == "field" and pe.get("adt") == IT and pe.get("name") in writers:
-                        writers[pe["name"]].add(b.path)
+                        writers[pe["name"]].update(owning_functions(prog, b))
                 if rv["k"] in ("ref", "rawptr") and rv.get("mut"):
                     for pe in rv["place"]["p"]:
                         if pe["k"] == "field" and pe.get("adt") == IT and pe.get("name") in writers:
-                            writers[pe["name"]].add(b.path)
+                            writers[pe["name"]].update(owning_functions(prog, b))
     okw = writers["pos"] <= {NEXT} and not writers["buffer"] and len(builders) == 1 and all("into_fallible_iter" in x for x in builders)
     ctx.ob(rule, "iterator:who-writes", okw, "pos written in %s, buffer in %s, built in %s" % (sorted(writers["pos"]), sorted(writers["buffer"]), sorted(builders)))
     for bp in builders:
